@@ -108,13 +108,42 @@ def run(ctx):
             except Exception as e:  # noqa: BLE001
                 ctx.fail(f"subgraph {i} alone is rejected ({type(e).__name__}) although the multi-subgraph model quantizes", case.replay(), "alone-raises")
                 return
-            a, b = pl.canon(res["out"])["subgraphs"][i], pl.canon(out1)["subgraphs"][0]
+            a, b = pl.canon(res["out"], with_version=True)["subgraphs"][i], pl.canon(out1, with_version=True)["subgraphs"][0]
             if json.dumps(a, sort_keys=True) != json.dumps(b, sort_keys=True):
                 from ..fam_mat import first_diff
                 ctx.fail(f"subgraph {i} is transformed differently inside the multi-subgraph model: {first_diff(a, b)}", case.replay(), "subgraph-differs")
                 return
             ctx.tag("subgraph_compared")
     fp.explore(ctx, drv, 420 if ctx.tier == "quick" else 2500, per_case, gen=gen, graph_corr=True, pipe_corr=True)
+    # BLOCKWISE weights (emulated sub-channel pattern: the operator is REPLACED and operator codes are added to the shared table; reachable
+    # with skip_checks only, outside the Lean model): the same stand-alone comparison, executed
+    for j in range(16 if ctx.tier == "quick" else 120):
+        if ctx.left() < 15:
+            break
+        case = fp.gen_blockwise_multi(ctx.rng)
+        res = fp.run_case(ctx, drv, case, graph_corr=False)
+        ctx.case({"blockwise_multi_subgraph": case.desc}, res["status"] == "ok")
+        ctx.tag("blockwise_multi_" + res["status"])
+        if res["status"] == "ok":
+            wf = pl.wf_violations(res["out"])
+            if wf:
+                ctx.fail("quantize() returned an ill-formed model: " + wf[0], case.replay(), "wf-blockwise-multi")
+                continue
+        elif res["status"] == "raise":
+            # each subgraph alone must then be refused too, or the refusal is an effect of the other subgraphs
+            m = pl.read(case.mb)
+            alone_ok = 0
+            for i in range(len(m.subgraphs)):
+                try:
+                    fp.quantizer.Quantizer(fp.extract_subgraph(case.mb, i), copy.deepcopy(res["q"].get_quantization_recipe())).quantize()
+                    alone_ok += 1
+                except Exception:  # noqa: BLE001
+                    pass
+            if alone_ok == len(m.subgraphs):
+                ctx.fail(f"the multi-subgraph model is refused ({res.get('exc')}) although every subgraph alone quantizes under the same recipe "
+                         "(no constant is shared between them)", case.replay(), "refused-only-together")
+            continue
+        per_case(case, res)
     drv.close()
     return common.finish(ctx)
 
